@@ -218,6 +218,19 @@ impl Ctx {
         for (k, v) in &self.extra {
             coverage[k] = v.clone();
         }
+        if let Ok(p) = std::env::var("ASNLINT_SELFTEST") {
+            if let Some(v) = std::fs::read_to_string(&p).ok().and_then(|s| serde_json::from_str::<Value>(&s).ok()) {
+                let arr = v.as_array().cloned().unwrap_or_default();
+                let ran = arr.iter().filter(|r| r["outcome"] == "fired" || r["outcome"] == "MISSED").count();
+                let fired = arr.iter().filter(|r| r["outcome"] == "fired").count();
+                coverage["selftest"] = json!({"mutants_run": ran, "fired": fired, "details": arr});
+            }
+        }
+        if let Ok(w) = std::env::var("ASNLINT_WITNESS") {
+            if !w.is_empty() {
+                coverage["compile_fail_witnesses"] = json!(w);
+            }
+        }
         let ev = json!({
             "property_id": self.property,
             "tier": self.tier,
